@@ -231,13 +231,13 @@ def _range_copy_rule(prog: Program, res: Result) -> None:
             res.analysed_functions.add(fi.fid)
         bad: set[tuple[str, str]] = set()
         for c in rf.copies:
-            how = (dotted(c.call.func) or "join").split(".")[-1] + "()" if isinstance(c.call, ast.Call) else ("comprehension" if isinstance(c.call, (ast.ListComp, ast.SetComp, ast.DictComp)) else "display with *")
+            how = (dotted(c.call.func) or "join").split(".")[-1] + "()" if isinstance(c.call, ast.Call) else ("comprehension" if isinstance(c.call, (ast.ListComp, ast.SetComp, ast.DictComp)) else ("membership test of a non-int" if isinstance(c.call, ast.Compare) else "display with *"))
             key = (c.fn.qualname, how)
             if key in bad:
                 continue
             bad.add(key)
             kinds = " or ".join(sorted(c.kinds - {"other"}))
-            res.fail("C02.R8", file=c.fn.file, line=getattr(c.call, "lineno", 0), qualname=c.fn.qualname, construct=f"{c.fn.qualname}: {how} copies a possible range", message=f"{c.fn.qualname}: `{norm(c.call, 80)}` copies `{c.arg}`, which can be a {kinds} whose length is chosen by the template (`(1..999999999999)`): the allocation is bounded by no limit and ends in MemoryError, which is not a LiquidError", what=f"{c.fn.qualname}: ranges stay lazy")
+            res.fail("C02.R8", file=c.fn.file, line=getattr(c.call, "lineno", 0), qualname=c.fn.qualname, construct=f"{c.fn.qualname}: {how} copies a possible range" if not isinstance(c.call, ast.Compare) else f"{c.fn.qualname}: {how} walks a possible range", message=f"{c.fn.qualname}: `{norm(c.call, 80)}` copies `{c.arg}`, which can be a {kinds} whose length is chosen by the template (`(1..999999999999)`): the allocation is bounded by no limit and ends in MemoryError, which is not a LiquidError", what=f"{c.fn.qualname}: ranges stay lazy")
         if not rf.copies:
             res.ok("C02.R8", f"{rel} {label}", f"{len(methods)} functions: no container is built from a value that can be a range or an iterator over one", "may-be-a-range flow")
     res.floor("C02.R8", "functions analysed for range copies", n_fn, 40)
@@ -498,6 +498,9 @@ def run(prog: Program, res: Result) -> None:  # noqa: PLR0912, PLR0915
     _range_copy_rule(prog, res)
     _power_guard_rule(prog, res)
     _none_flow_rule(prog, res)
+    from checks.C17 import check_lexer_progress
+
+    check_lexer_progress(prog, res, "C02.R12")
     # ------------------------------------------------------------------ R3 boundary converters
     res.rule("C02.R3", "Filter.evaluate[_async] wraps the dynamic filter call in a handler converting (TypeError, ValueError, ArithmeticError, LookupError, AttributeError, OSError) to LiquidTypeError; render_with_context converts stray LiquidInterrupts")
     flt = prog.mod("liquid2/builtin/expressions.py").classes.get("Filter")
